@@ -51,7 +51,7 @@ man = {
  "hooks": {
   "guard": "SHARK_ML_SHARK_VERIF",
   "enable": "-DSHARK_ML_SHARK_VERIF on the harness compile line (vlib/core.py BASE_FLAGS); harnesses compile the repo sources themselves, the pinned CMake build never defines it",
-  "baseline_off_cmd": "cmake --build /repo/_build -j16 && ctest --test-dir /repo/_build -j8 --timeout 900",
+  "baseline_off_cmd": "cmake --build /repo/_build -j16 -- -k 0; ctest --test-dir /repo/_build -j8 --timeout 900",
   "source_commits": hooks,
   "add_only": True,
  },
